@@ -67,6 +67,13 @@ def _features(kind, n, rng):
             "s": pl.Series([["alpha", "b c", "x,y", "Z"][int(i)] for i in rng.integers(0, 4, n)], dtype=pl.Utf8),
             "b": pl.Series([bool(i) for i in rng.integers(0, 2, n)], dtype=pl.Boolean),
         })
+    if kind == "special":
+        # values that look like missing-value markers but are data: float NaN (not null), the strings "NA", "NaN", "None"
+        vf = [float("nan") if i == 0 else float(i) - 0.5 for i in rng.integers(0, 3, n)]
+        vs = [["NA", "NaN", "None", "n/a"][int(i)] for i in rng.integers(0, 4, n)]
+        if n:
+            vf[0], vs[0] = float("nan"), "NA"
+        return pl.DataFrame({"fnan": pl.Series(vf, dtype=pl.Float64), "smark": pl.Series(vs, dtype=pl.Utf8)})
     vals_f = [None if i == 0 else float(i) + 0.25 for i in rng.integers(0, 3, n)]
     vals_s = [None if i == 0 else "q" for i in rng.integers(0, 2, n)]
     vals_i = [None if i == 0 else int(i) for i in rng.integers(0, 3, n)]
@@ -80,8 +87,10 @@ def _features(kind, n, rng):
 
 
 def _feat_val(x):
-    if x is None or (isinstance(x, float) and np.isnan(x)):
+    if x is None:
         return {"t": "null", "x": 0}
+    if isinstance(x, (float, np.floating)) and np.isnan(x):
+        return {"t": "nan", "x": 0}          # NaN is a value, not a missing entry
     if isinstance(x, bool) or isinstance(x, np.bool_):
         return {"t": "bool", "x": int(bool(x))}
     if isinstance(x, (int, np.integer)):
